@@ -33,8 +33,13 @@ theorem retry_gauge_step (s : Retry.St) (a : Retry.Act) (s' : Retry.St) (hi : s.
     · rename_i hg
       split at h
       · cases h; simp only; rw [length_erase_int _ _ hg.1]; omega
-      · cases h; simp only [List.length_append, List.length_cons, List.length_nil]
+      · cases h; simp only
         have := length_erase_int _ _ hg.1; omega
+    · cases h
+  | submitApp =>
+    simp only [Retry.step] at h
+    split at h
+    · cases h; simp only [List.length_append, List.length_cons, List.length_nil]; omega
     · cases h
   | discard j =>
     simp only [Retry.step] at h
